@@ -134,8 +134,10 @@ CLAIMED["C10"] = (
 CLAIMED["C11"] = (
     "Coq proof (fold invariant of the per-step group table; restriction algebra of by/without) + metamorphic correspondence: the outer aggregation's observed result against the aggregate of the OBSERVED inner vector",
     "Theorems vagg_groups (one series per distinct combination of retained labels, value = aggregate of exactly the group's members in arrival order, timestamp kept, no duplicate), group_labels, no_grouping_single_group, by_nothing, "
-    "nested_no_reappear, prefix_grouping_refuted (D8 D9 D10), sort_permutation_partial. PARTIAL: ordering of sort/sort_desc and the bounded-heap selection of topk/bottomk are not theorems; they are demanded on every observed result "
-    "(k largest/smallest per group, none worse omitted, labels and values intact; sorted order) and compared with the exact container/heap model.",
+    "nested_no_reappear, prefix_grouping_refuted (D8 D9 D10), sort_permutation, sort_sorted (ascending / descending by value) and topk_groups: for k > 0, any grouping clause and every group key, the output restricted to that group is a "
+    "sub-multiset of its members (the samples themselves: values and label sets untouched) of size min(k, |group|), every kept sample ranking at or before every omitted one, in rank order -- proved through the container/heap "
+    "transliteration (heap-order invariant, bounded-heap offer invariant, per-group fold) for all NaN-free vectors, the IEEE-754 order facts coming from Flocq's link to Coq's primitive floats (standard-library float and real-number axioms, listed by "
+    "Print Assumptions). The same demands are also made on every observed result and compared with the exact model.",
     MET_NOTE, "DESIGN.md 4 C11")
 CLAIMED["C12"] = (
     "Coq proof (case analysis of the sample operators; list lemmas for literal / vector-vector / set operations) + metamorphic correspondence: the observed result against the operator applied to the OBSERVED operand vectors at every step",
